@@ -34,8 +34,11 @@ Definition trim_blanks (v : bytes) : bytes := rev (drop_while is_blank (rev (dro
 Definition remove_key (k : bytes) (l : assoc_list) : assoc_list := filter (fun kv => negb (bytes_eqb k (fst kv))) l.
 (* header names are case-insensitive (canonical form on both sides) *)
 Definition set_header (name v : bytes) (q : request) : request :=
-  mkReq ((lower name, trim_blanks v) :: remove_key (lower name) (r_headers q)) (r_query q) (r_form_ct q) (r_form q).
-Definition get_header (name : bytes) (q : request) : bytes := lookup (lower name) (r_headers q).
+  mkReq ((lower name, v) :: remove_key (lower name) (r_headers q)) (r_query q) (r_form_ct q) (r_form q).
+(* the value as the client holds it (Header.Get on the header parameters) *)
+Definition raw_header (name : bytes) (q : request) : bytes := lookup (lower name) (r_headers q).
+(* the value as the server reads it after the wire *)
+Definition get_header (name : bytes) (q : request) : bytes := trim_blanks (raw_header name q).
 Definition set_query (name : bytes) (vs : list bytes) (q : request) : request :=
   mkReq (r_headers q) ((name, vs) :: filter (fun kv => negb (bytes_eqb name (fst kv))) (r_query q)) (r_form_ct q) (r_form q).
 Definition get_query (name : bytes) (q : request) : bytes := first_val (lookup_vals name (r_query q)).
@@ -121,7 +124,7 @@ Definition effective_auth (op default : option (request -> request)) (q : reques
   match op with
   | Some w => w q
   | None => match default with
-            | Some d => match get_header s_authorization q with [] => d q | _ => q end
+            | Some d => match raw_header s_authorization q with [] => d q | _ => q end
             | None => q
             end
   end.
